@@ -17,7 +17,7 @@ from typing import Any, List, Optional
 
 from ..core import PropCheck
 
-KINDS = ["f", "g", "c", "gl", "glc"]
+KINDS = ["f", "g", "c", "gl", "glc", "gld"]
 
 
 def manual_walk():
@@ -80,6 +80,21 @@ def run_scenario(levels: List[str], queries_fn):
             mid = greenlet.greenlet(inner.switch)
             inner.parent = mid
             mid.switch()
+        elif kind == "gld":
+            # the caller's greenlet has a *dead* direct parent: an exception would propagate past it to the next live ancestor
+            box = {}
+
+            def inner_body():
+                greenlet.getcurrent().parent.switch()      # park: back to the middle greenlet
+                level(k + 1)
+
+            def mid_body():
+                box["inner"] = greenlet.greenlet(inner_body)
+                box["inner"].switch()
+                return                                      # the middle greenlet finishes
+
+            greenlet.greenlet(mid_body).switch()
+            box["inner"].switch()                           # re-entered from here, below a dead parent
         else:
             raise ValueError(kind)
 
